@@ -21,7 +21,7 @@ import numpy as np
 from common import Run, use_repo, coq_eval
 import trace as T
 
-BOOSTS = [0.1, 0.5, 1.0, 1.5, 3.0, 10.0]
+BOOSTS = [0.1, 0.5, 1.0, 1.5, 3.0, 10.0]      # below one, one, above one
 
 
 class RecordingRng:
@@ -67,6 +67,12 @@ def run_config(job):
     warnings.filterwarnings('ignore')
     prob = T.Problem(cfg)
     kw = dict(n_live=cfg['n_live'], n_batch=cfg['n_batch'], n_networks=0, seed=cfg['seed'], n_update=cfg.get('n_update'))
+    tmpd = None
+    if cfg.get('with_file'):
+        # a checkpointed sampler: repeated equal-weight calls must still draw fresh random numbers
+        import tempfile
+        tmpd = tempfile.mkdtemp(prefix='nvc14_')
+        kw['filepath'] = os.path.join(tmpd, 'ck.hdf5')
     s = nautilus.Sampler(prob.prior_fn, prob.like_scalar, n_dim=cfg['n_dim'], **kw)
     with np.errstate(all='ignore'):
         s.run(n_eff=cfg['n_eff'], n_shell=cfg['n_shell'], discard_exploration=cfg.get('discard_at_end', False))
@@ -183,6 +189,9 @@ def run_config(job):
             if np.any(bad):
                 i = int(np.flatnonzero(bad)[0])
                 fails.append('boost=%g: over %d redraws sample %d got %d extra copies, expected Binomial(%d, %.6f) (two-sided p=%.2g)' % (b, K, i, int(extra[i]), K, fr[i], pval[i]))
+    if tmpd:
+        import shutil
+        shutil.rmtree(tmpd, ignore_errors=True)
     return dict(cfg=cfg, fails=fails, cases=cases, stats=stats)
 
 
@@ -207,7 +216,7 @@ Eval vm_compute in [%s].
 
 def configs(tier, seed):
     base = dict(n_dim=2, n_live=60, n_batch=20, n_update=20, seed=3 + seed % 1000, n_shell=5, n_eff=300, blob='none', family='gauss')
-    cs = [dict(base), dict(base, family='halfspace', n_dim=3, blob='float', discard_at_end=True), dict(base, family='twomode', blob='two', n_eff=500),
+    cs = [dict(base, with_file=True), dict(base, family='halfspace', n_dim=3, blob='float', discard_at_end=True), dict(base, family='twomode', blob='two', n_eff=500, with_file=True),
           dict(base, discard_at_end=True, seed=base['seed'] + 1), dict(base, discard_at_end=True, seed=base['seed'] + 2, family='twomode'),
           dict(base, discard_at_end=True, seed=base['seed'] + 3, n_live=100, blob='float'), dict(base, discard_at_end=True, seed=base['seed'] + 4, family='funnel', n_dim=3)]
     if tier == 'thorough':
